@@ -120,6 +120,7 @@ func C11(r *core.Run) {
 				continue
 			}
 			k := utf8.EncodeRune(buf[:], rn)
+			d.modeSet(cp) // text arrives the same way whatever modes the application enabled
 			if !c11one(r, d, "UTF-8", rn, buf[:k]) {
 				return
 			}
